@@ -36,7 +36,7 @@ def evOut : Ev → String
   | .sockClosed i => s!"sockClosed:{i}" | .sockDropped i => s!"sockDropped:{i}"
   | .pingStart => "pingStart" | .pingStop => "pingStop"
   | .returned b => s!"ret:{b2s b}" | .raisedOut e => s!"raised:{exnOut e}"
-  | .blocked => "blocked" | .outOfFuel => "outOfFuel"
+  | .blocked => "blocked" | .outOfFuel => "outOfFuel" | .closeCall => "closeCall"
 
 def traceOut (t : Trace) : String :=
   if t.isEmpty then "-" else ";".intercalate (t.map fun (tm, e) => s!"{tm}:{evOut e}")
@@ -156,7 +156,7 @@ def parseEv (parts : List String) : Option Ev :=
   | ["pingStart"] => some .pingStart | ["pingStop"] => some .pingStop
   | ["ret", b] => some (.returned (b == "1"))
   | ["raised", e] => some (.raisedOut (parseExn e))
-  | ["blocked"] => some .blocked | ["outOfFuel"] => some .outOfFuel
+  | ["blocked"] => some .blocked | ["outOfFuel"] => some .outOfFuel | ["closeCall"] => some .closeCall
   | _ => none
 
 def parseTrace (s : String) : Option Trace :=
